@@ -499,6 +499,12 @@ func Run(spec *Spec, tier string, seed int64) int {
 		g := &spec.Groups[gi]
 		var entries []Entry
 		for _, e := range g.Entries {
+			if only := os.Getenv("VERIF_ONLY"); only != "" {
+				if strings.Contains(e.Fn, only) {
+					entries = append(entries, e)
+				}
+				continue
+			}
 			if tierMatch(e.Tiers, tier) {
 				entries = append(entries, e)
 			}
